@@ -11,4 +11,6 @@ mkdir -p bin evidence replays .work
 .work/build-selftest/selftest.bin > .work/selftest.out
 grep -q "rendezvous nosleep=false execs=4 " .work/selftest.out || { echo "scheduler selftest failed"; cat .work/selftest.out; exit 1; }
 rm -rf .work/build-selftest
+# behaviour preservation of the instrumenter (informational here; prints its own verdict)
+tools/selfcheck-instr 2>&1 | tail -1 || true
 echo "setup ok"
